@@ -92,7 +92,7 @@ func corsAndContextEffects(c *core.Ctx, R string) {
 			})
 		}
 	}
-	if u := c.Fn(R, "types.(*cors).applyHeaders"); u != nil {
+	if u := c.Fn(R, "types.(*cors).applyHeaders"); u != nil && localAnchors(c, R, u, "vary") {
 		g := u.Graph()
 		star := func(x *core.Unit, br core.Branch) int {
 			cmp, ok := x.BranchCmp(br)
@@ -176,7 +176,7 @@ func corsAndContextEffects(c *core.Ctx, R string) {
 		}
 		c.Check(R, "types.(*cors).configureMaxAge/header-iff-configured", u.Pos(), ok, "Access-Control-Max-Age is added exactly when MaxAge is non-empty")
 	}
-	if u := c.Fn(R, "types.(*cors).configureAllowedHeaders"); u != nil {
+	if u := c.Fn(R, "types.(*cors).configureAllowedHeaders"); u != nil && localAnchors(c, R, u, "head") {
 		g := u.Graph()
 		asked := func(x *core.Unit, br core.Branch) int {
 			cmp, ok := x.BranchCmp(br)
